@@ -79,6 +79,12 @@ impl FixtureDatabase {
             self.cleanup_definitions_for_file(&file_path);
         }
 
+        // The file's definitions and imports may change even when no fixture is recorded
+        // below (e.g. its last fixture was removed, or only an import line was edited), so
+        // the version-keyed caches (available fixtures, cycles, imported fixtures) must be
+        // invalidated on every successful analysis, not only when a definition is added.
+        self.invalidate_cycle_cache();
+
         // Check if this is a conftest.py
         let is_conftest = file_path
             .file_name()
